@@ -32,6 +32,7 @@ func checkC09(c *Ctx) {
 			continue
 		}
 		c09Pooled(c, p, m, "R09.1", feasibleModes)
+		countersBalanced(c, p, m, "R09.1")
 		c09Globals(c, p, m)
 		c09Capacity(c, p, m)
 		c08Pools(c, p, m)
